@@ -1,293 +1,340 @@
 """C18 - exports are all-or-nothing and leave no debris.
 
-R18.1 write_rtf: encode dominates every touch of the target, the written value is the encode
-result unmodified; R18.2 temporary resources only through `with tempfile.TemporaryDirectory()`
-(or a repo context manager whose cleanup is in a finally); R18.3 the target is touched only by the
-final shutil.move, dominated by convert and by the result type check, inside the with blocks;
-R18.4 the three converters are the same function modulo the format.
+The four writers are interpreted (sa/rules/c17.py: model interpreter) over an in-memory file system with a model
+document (rtf_encode returns a fixed string or fails) and a model converter (writes `<stem>.<format>` into the output
+directory it is given and returns its path; or fails before / after producing output; or returns something that is not
+a path).  Besides those failures an exception is injected, run by run, at every call boundary of repository code.
+Observed per run:
+
+R18.1 write_rtf: a normal return leaves exactly rtf_encode()'s string at the target (missing parent directories
+      created); a raise leaves the target as it was.
+R18.2 no temporary file or directory survives a run, whether it returns or raises.
+R18.3 write_docx/html/pdf: a normal return leaves the converter's output (and the HTML resource folder) at the requested
+      path and nowhere else, the converter was given exactly rtf_encode()'s string; a raise leaves the target as it was
+      and no other file behind.
+R18.4 each writer asks the converter for its own format.
 """
 from __future__ import annotations
 
-import ast
-import re
-
-from ..cfg import CFG, own_parts
-from ..pm import AnalysisError, dotted, unparse, walk_no_nested
 from ..report import Ctx
+from .c17 import FS, Bound, ClassVal, Func, Interp, NeedChoice, Obj, Unknown, Unsupported, _Model, is_artefact, interp_pm, cover, METHOD
 
-WRITERS = ("RTFDocument.write_docx", "RTFDocument.write_html", "RTFDocument.write_pdf")
-FS_WRITE_ATTRS = {"write_text", "write_bytes", "touch", "unlink", "rename", "replace", "rmdir", "open", "symlink_to", "hardlink_to"}
-FS_WRITE_FUNCS = {"shutil.move", "shutil.copy", "shutil.copy2", "shutil.copyfile", "shutil.rmtree", "os.remove", "os.rename",
-                  "os.replace", "os.unlink"}
-
-
-def _derives(fn, expr: ast.AST, base_names: set[str], depth: int = 0) -> bool:
-    """does `expr` derive (through locals) from one of base_names?"""
-    for n in ast.walk(expr):
-        if isinstance(n, ast.Name):
-            if n.id in base_names:
-                return True
-            if depth < 6:
-                for a in walk_no_nested(fn):
-                    if isinstance(a, ast.Assign) and any(isinstance(t, ast.Name) and t.id == n.id for t in a.targets):
-                        if _derives(fn, a.value, base_names, depth + 1):
-                            return True
-    return False
+WRITERS = (("RTFDocument.write_docx", "docx"), ("RTFDocument.write_html", "html"), ("RTFDocument.write_pdf", "pdf"))
+ENCODED = "{\\rtf1\\ansi model document\n\\pard text\\par\n}"
+OLD = "PRE-EXISTING TARGET CONTENT\n"
 
 
-def _node_of(g: CFG, sub: ast.AST):
-    live = g.reachable(g.entry)
-    for nd in g.node_containing(sub):
-        if id(nd) in live:
-            return nd
-    return None
+class _Lib:
+    """a model standing for a repository function: a call boundary at which faults are injected"""
+
+    def __init__(self, name, f):
+        self.name, self.f = name, f
+
+    def __call__(self, *a, **k):
+        return self.f(*a, **k)
+
+    def __repr__(self):
+        return f"<model {self.name}>"
 
 
-def _fs_touches(fi):
-    """(call, kind, path-expr) for every filesystem-modifying operation in the function"""
-    out = []
-    for c in walk_no_nested(fi.node):
-        if not isinstance(c, ast.Call):
+class Converter(_Model):
+    """model of LibreOfficeConverter: convert() reads the input file, writes `<stem>.<format>` into output_dir"""
+
+    def __init__(self, run):
+        self.run = run
+        self.convert = _Lib("converter.convert", self._convert)
+
+    def _convert(self, input_files=None, output_dir=None, format="pdf", overwrite=False, **k):
+        run, fs = self.run, self.run.fs
+        if k:
+            raise Unsupported(f"converter.convert called with unknown arguments {sorted(k)}")
+        if isinstance(input_files, (list, tuple)):
+            raise Unsupported("converter.convert called with several input files")
+        if isinstance(format, Unknown) or isinstance(output_dir, Unknown) or isinstance(input_files, Unknown):
+            raise Unsupported("converter.convert called with unknown arguments")
+        src = fs.norm(input_files)
+        run.convert_calls.append({"format": format, "input": src, "input_content": fs.files.get(src), "output_dir": fs.norm(output_dir)})
+        if run.conv_mode == "raise-before":
+            run.it.throw("RuntimeError", "model converter failed before producing output")
+        if src not in fs.files:
+            run.it.throw("FileNotFoundError", f"converter input {src} does not exist")
+        out_dir = fs.norm(output_dir)
+        if out_dir not in fs.dirs:
+            fs.mkdir(out_dir, parents=True, exist_ok=True)
+        stem = src.rsplit("/", 1)[-1].rsplit(".", 1)[0]
+        out = f"{out_dir}/{stem}.{format}"
+        content = f"CONVERTED[{format}] of <<{fs.files[src]}>>"
+        fs.write_file(out, content, "create")
+        run.converted = (out, content)
+        if format == "html" and run.resources:
+            fs.mkdir(f"{out}_files", exist_ok=True)
+            fs.write_file(f"{out}_files/image1.png", "PNG", "create")
+        if run.conv_mode == "raise-after":
+            run.it.throw("RuntimeError", "model converter failed after producing output")
+        if run.conv_mode == "returns-list":
+            return [fs.Path(out)]
+        if run.conv_mode == "returns-none":
+            return None
+        if run.conv_mode == "returns-str":
+            return out
+        return fs.Path(out)
+
+
+class Run:
+    """one interpreted export call on a fresh model world"""
+
+    def __init__(self, pm, *, target, existing, enc_ok=True, conv_mode="ok", resources=False, fault_at=None, valuation=None):
+        self.pm, self.target, self.existing = pm, target, existing
+        self.enc_ok, self.conv_mode, self.resources, self.fault_at = enc_ok, conv_mode, resources, fault_at
+        self.it = it = Interp(pm)
+        files = {target: OLD} if existing else {}
+        self.fs = fs = FS(it, files, dirs=("/", "/tmp", "/work", "/work/out"))
+        it.externals.update(fs.externals())
+        self.before = fs.snapshot()
+        self.convert_calls, self.converted, self.lib_calls, self.encodes = [], None, [], 0
+        self.converter = Converter(self)
+        it.overrides["LibreOfficeConverter"] = _Lib("LibreOfficeConverter()", lambda *a, **k: self.converter)
+        self.doc = Obj(it.class_val(pm.cls("RTFDocument")), {})
+        self.doc.attrs["rtf_encode"] = _Lib("rtf_encode", self._encode)
+        it.before_call = self._before_call
+        it.valuation = dict(valuation or {})
+
+    def _encode(self, *a, **k):
+        self.encodes += 1
+        if not self.enc_ok:
+            self.it.throw("ValueError", "model rtf_encode failed")
+        return ENCODED
+
+    def _before_call(self, node, f, args, kwargs):
+        if isinstance(f, (Func, Bound, ClassVal, _Lib)):
+            name = f.name if isinstance(f, (Func, ClassVal, _Lib)) else f.func.name
+            self.lib_calls.append(name)
+            if self.fault_at is not None and len(self.lib_calls) == self.fault_at:
+                self.it.throw("RuntimeError", f"fault injected at call #{self.fault_at} ({name})")
+
+    def call(self, short, path_arg, pass_converter):
+        fi = self.pm.func(short)
+        f = Bound(self.it.func_val(fi), self.doc)
+        kw = {"converter": self.converter} if pass_converter else {}
+        return self.it.outcome(lambda: self.it.call(f, [path_arg], kw))
+
+    # ---- observations
+    def target_now(self):
+        return self.fs.files.get(self.target)
+
+    def debris(self):
+        fs = self.fs
+        left = [p for p in fs.temp_created if p in fs.dirs or p in fs.files]
+        left += [p for p in list(fs.files) + list(fs.dirs) if p.startswith("/tmp/") and p not in left and p not in self.before[1]]
+        return sorted(set(left))
+
+    def strays(self, allowed=()):
+        """files created outside /tmp other than the target (and explicitly allowed paths)"""
+        return sorted(p for p in self.fs.files if p not in self.before[0] and p != self.target and not p.startswith("/tmp/")
+                      and not any(p == a or p.startswith(a + "/") for a in allowed))
+
+
+_STATS = {"scenarios": 0, "runs": 0, "forks": 0, "fault_points": {}}
+
+
+def _runs(pm, short, path_kind, pass_converter, **kw):
+    """run one scenario under every valuation of unknown conditions -> [(outcome, Run)]"""
+    out, pending = [], [dict()]
+    while pending:
+        v = pending.pop()
+        r = Run(pm, valuation=v, **kw)
+        arg = r.fs.Path(kw["target"]) if path_kind == "Path" else kw["target"]
+        try:
+            o = r.call(short, arg, pass_converter)
+        except NeedChoice as e:
+            if len(v) > 6:
+                raise Unsupported(f"too many unknown conditions in {short}")
+            pending.extend({**v, e.key: x} for x in e.domain)
             continue
-        d = dotted(c.func)
-        if isinstance(c.func, ast.Attribute) and c.func.attr in FS_WRITE_ATTRS and not d.startswith(("shutil.", "os.")):
-            if c.func.attr == "open":
-                mode = c.args[0].value if c.args and isinstance(c.args[0], ast.Constant) else next((k.value.value for k in c.keywords if k.arg == "mode" and isinstance(k.value, ast.Constant)), "r")
-                if not any(ch in str(mode) for ch in "wax+"):
-                    continue
-            out.append((c, c.func.attr, c.func.value))
-        elif d in FS_WRITE_FUNCS:
-            dst = c.args[1] if len(c.args) > 1 and d.startswith("shutil.") and d != "shutil.rmtree" else (c.args[0] if c.args else None)
-            out.append((c, d, dst))
-        elif d == "open" and c.args:
-            mode = c.args[1].value if len(c.args) > 1 and isinstance(c.args[1], ast.Constant) else next((k.value.value for k in c.keywords if k.arg == "mode" and isinstance(k.value, ast.Constant)), "r")
-            if any(ch in str(mode) for ch in "wax+"):
-                out.append((c, "open:" + str(mode), c.args[0]))
+        out.append((o, r))
+    _STATS["scenarios"] += 1
+    _STATS["runs"] += len(out)
+    _STATS["forks"] += len(out) - 1
     return out
 
 
+def _exc_name(o):
+    return o[1].cls.mro_names()[0] if o[0] == "raise" and o[1].cls is not None else ""
+
+
+def _artefact(ctx, rule, o, label) -> bool:
+    return o[0] == "raise" and is_artefact(o[1])
+
+
 def r18_1(ctx: Ctx) -> None:
-    pm = ctx.pm
-    fi = pm.func("RTFDocument.write_rtf")
-    g = CFG(fi.node)
-    enc = [c for c in walk_no_nested(fi.node) if isinstance(c, ast.Call) and dotted(c.func).endswith("rtf_encode")]
-    if len(enc) != 1:
-        ctx.violation("R18.1", fi.short, f"{len(enc)} encode calls", fi.where(), "write_rtf must encode exactly once")
-        return
-    enc_node = _node_of(g, enc[0])
-    dom = g.dominators()
-    # variable holding the encoded string
-    p = getattr(enc[0], "_parent", None)
-    var = p.targets[0].id if isinstance(p, ast.Assign) and isinstance(p.targets[0], ast.Name) else None
-    target_names = {a.arg for a in fi.node.args.args if a.arg != "self"}
-    touches = _fs_touches(fi)
-    n_target = 0
-    for c, kind, pexpr in touches:
-        if kind == "mkdir":
-            continue
-        nd = _node_of(g, c)
-        is_target = pexpr is not None and _derives(fi.node, pexpr, target_names)
-        dominated = nd is not None and enc_node is not None and id(enc_node) in dom.get(id(nd), set()) and nd is not enc_node
-        ctx.instance("R18.1", fi.where(c), f"write_rtf: {kind} on `{unparse(pexpr)}` (target: {is_target}) dominated by rtf_encode: {dominated}")
-        if is_target:
-            n_target += 1
-            if not dominated:
-                ctx.violation("R18.1", fi.short, f"{kind} before encode", fi.where(c),
-                              f"write_rtf touches the target (`{unparse(c)[:60]}`) before rtf_encode() has succeeded; a failing encode leaves a truncated/empty target")
-            if kind in ("write_text", "write_bytes"):
-                val = c.args[0] if c.args else None
-                ok = isinstance(val, ast.Name) and val.id == var and _single_assign(fi.node, var)
-                if not ok and not (isinstance(val, ast.Call) and dotted(val.func).endswith("rtf_encode")):
-                    ctx.violation("R18.1", fi.short, "written value " + unparse(val), fi.where(c),
-                                  f"write_rtf writes `{unparse(val)}` instead of exactly the string rtf_encode() returned")
-    if n_target == 0:
-        ctx.violation("R18.1", fi.short, "no target write", fi.where(), "write_rtf no longer writes the target path")
-    # with-statement opening the target around the encode
-    for w in [n for n in walk_no_nested(fi.node) if isinstance(n, ast.With)]:
-        for it in w.items:
-            if isinstance(it.context_expr, ast.Call) and any(x is enc[0] for s in w.body for x in ast.walk(s)):
-                d = unparse(it.context_expr)
-                if "open" in d and re.search(r"['\"][wax]", d):
-                    ctx.violation("R18.1", fi.short, "encode inside open(target)", fi.where(w), "rtf_encode() runs while the target is already open for writing")
-    mk = [c for c in walk_no_nested(fi.node) if isinstance(c, ast.Call) and isinstance(c.func, ast.Attribute) and c.func.attr == "mkdir"]
-    ok_mk = any(any(k.arg == "parents" and getattr(k.value, "value", None) is True for k in c.keywords) for c in mk)
-    ctx.instance("R18.1", fi.where(), f"write_rtf creates missing parent directories: {ok_mk}")
-    if not ok_mk:
-        ctx.violation("R18.1", fi.short, "no mkdir(parents=True)", fi.where(), "write_rtf no longer creates missing parent directories")
-
-
-def _single_assign(fn, name) -> bool:
-    n = 0
-    for a in walk_no_nested(fn):
-        if isinstance(a, ast.Assign) and any(isinstance(t, ast.Name) and t.id == name for t in a.targets):
-            n += 1
-        if isinstance(a, ast.AugAssign) and isinstance(a.target, ast.Name) and a.target.id == name:
-            n += 2
-    return n == 1
-
-
-def _cm_cleanup_ok(pm, fi) -> tuple[bool, str]:
-    """a @contextmanager generator: every yield sits in a try whose finally cleans up"""
-    ys = [n for n in walk_no_nested(fi.node) if isinstance(n, (ast.Yield, ast.YieldFrom))]
-    if not ys:
-        return False, "no yield"
-    for y in ys:
-        p = getattr(y, "_parent", None)
-        ok = False
-        while p is not None and p is not fi.node:
-            if isinstance(p, ast.Try) and p.finalbody and any(x is y for s in p.body for x in ast.walk(s)):
-                if any(isinstance(c, ast.Call) and dotted(c.func).split(".")[-1] in ("rmtree", "cleanup", "unlink", "remove") for s in p.finalbody for c in ast.walk(s)):
-                    ok = True
-            if isinstance(p, ast.With) and any("TemporaryDirectory" in unparse(i.context_expr) for i in p.items):
-                ok = True
-            p = getattr(p, "_parent", None)
-        if not ok:
-            return False, "yield is not protected by try/finally cleanup"
-    return True, "cleanup in finally"
+    pm = interp_pm(ctx.pm)
+    short = "RTFDocument.write_rtf"
+    fi = pm.func(short)
+    for target, existing in (("/work/out/report.rtf", True), ("/work/out/report.rtf", False), ("/work/new/sub/report.rtf", False)):
+        for path_kind in ("str", "Path"):
+            where = f"target {'exists' if existing else 'absent'}{' in a missing directory' if '/new/' in target else ''}, given as {path_kind}"
+            # ---- success
+            for o, r in _runs(pm, short, path_kind, False, target=target, existing=existing):
+                got = r.target_now()
+                ctx.instance("R18.1", fi.where(), f"write_rtf ({where}): {o[0]} {_exc_name(o)}; target holds rtf_encode()'s string: {got == ENCODED}; "
+                             f"rtf_encode called {r.encodes}x; library calls {r.lib_calls}")
+                if o[0] == "raise":
+                    if _artefact(ctx, "R18.1", o, where):
+                        ctx.gap("R18.1", f"write_rtf ({where}): interpretation ended with {o[1]!r}")
+                    elif "/new/" in target and _exc_name(o) in ("FileNotFoundError", "OSError", "NotADirectoryError"):
+                        ctx.violation("R18.1", short, "no mkdir(parents=True)", fi.where(), f"write_rtf no longer creates missing parent directories ({o[1]!r})")
+                    else:
+                        ctx.violation("R18.1", short, f"raises {_exc_name(o)}", fi.where(), f"write_rtf raises {o[1]!r} although encoding succeeds ({where})")
+                    continue
+                if got is None:
+                    ctx.violation("R18.1", short, "no target write", fi.where(), f"write_rtf no longer writes the target path ({where})")
+                elif got != ENCODED:
+                    ctx.violation("R18.1", short, "written value differs", fi.where(),
+                                  f"write_rtf stores {got[:60]!r} instead of exactly the string rtf_encode() returned ({where})")
+                if r.strays() or r.debris():
+                    ctx.violation("R18.1", short, "other files written", fi.where(), f"write_rtf leaves other files behind: {(r.strays() + r.debris())[:3]} ({where})")
+                n_calls = len(r.lib_calls)
+            # ---- encode fails / a fault at every call boundary
+            _STATS["fault_points"][f"write_rtf ({where})"] = n_calls
+            variants = [("rtf_encode raises", dict(enc_ok=False))] + [(f"fault at call #{k}", dict(fault_at=k)) for k in range(1, n_calls + 1)]
+            for vlabel, kw in variants:
+                for o, r in _runs(pm, short, path_kind, False, target=target, existing=existing, **kw):
+                    got, want = r.target_now(), (OLD if existing else None)
+                    ctx.instance("R18.1", fi.where(), f"write_rtf ({where}; {vlabel}): {o[0]} {_exc_name(o)}; target afterwards "
+                                 f"{'unchanged' if got == want else ('absent' if got is None else repr(got[:30]))}")
+                    if o[0] != "raise":
+                        ctx.violation("R18.1", short, "failure swallowed", fi.where(), f"write_rtf returns normally although {vlabel} ({where})")
+                    if got != want:
+                        ctx.violation("R18.1", short, "target touched before encode", fi.where(),
+                                      f"write_rtf ({where}; {vlabel}): the target is {'created' if want is None else 'modified'} "
+                                      f"({'empty' if got == '' else repr((got or '')[:40])}) although the call fails; "
+                                      "the target must only be written once rtf_encode() has succeeded")
+                    if r.strays() or r.debris():
+                        ctx.violation("R18.1", short, "files left after failure", fi.where(), f"write_rtf ({where}; {vlabel}) leaves {(r.strays() + r.debris())[:3]} behind")
+    ctx.floor("R18.1", 6)
 
 
 def r18_2_3(ctx: Ctx) -> None:
-    pm = ctx.pm
-    for short in WRITERS:
+    pm = interp_pm(ctx.pm)
+    for short, fmt in WRITERS:
         fi = pm.func(short)
-        g = CFG(fi.node)
-        dom = g.dominators()
-        target_names = {a.arg for a in fi.node.args.args if a.arg not in ("self",)} - {"converter"}
-        # ---- R18.2 temp resources
-        tmp_vars: set[str] = set()
-        withs = [n for n in walk_no_nested(fi.node) if isinstance(n, ast.With)]
-        for w in withs:
-            for it in w.items:
-                d = dotted(it.context_expr.func) if isinstance(it.context_expr, ast.Call) else unparse(it.context_expr)
-                ok = d in ("tempfile.TemporaryDirectory", "TemporaryDirectory")
-                why = "tempfile.TemporaryDirectory"
-                if not ok and isinstance(it.context_expr, ast.Call):
-                    r = pm.resolve(fi.module, d.split(".")[-1]) if "." not in d else None
-                    cand = r[1] if r and r[0] == "func" else pm.funcs.get(d.split(".")[-1])
-                    if cand is not None and any(x.endswith("contextmanager") for x in cand.decorators):
-                        ok, why = _cm_cleanup_ok(pm, cand)
-                        why = f"{cand.short}: {why}"
-                ctx.instance("R18.2", fi.where(w), f"{short}: with {d}() as {unparse(it.optional_vars) if it.optional_vars else '_'} -> {why if ok else 'NOT a guaranteed-cleanup temp dir: ' + why}")
-                if isinstance(it.optional_vars, ast.Name):
-                    tmp_vars.add(it.optional_vars.id)
-                if not ok:
-                    ctx.violation("R18.2", short, f"with {d}", fi.where(w), f"{short}: temporary directory from `{d}()` is not removed when the body raises ({why})")
-        for c in walk_no_nested(fi.node):
-            if isinstance(c, ast.Call):
-                d = dotted(c.func)
-                if d.split(".")[-1] in ("mkdtemp", "mkstemp", "NamedTemporaryFile", "TemporaryFile", "SpooledTemporaryFile", "gettempdir"):
-                    in_with = isinstance(getattr(c, "_parent", None), ast.withitem)
-                    ctx.violation("R18.2", short, d, fi.where(c), f"{short}: `{d}` creates a temporary resource that is not removed automatically on failure")
-                if d in ("tempfile.TemporaryDirectory", "TemporaryDirectory") and not isinstance(getattr(c, "_parent", None), ast.withitem):
-                    ctx.violation("R18.2", short, "TemporaryDirectory outside with", fi.where(c), f"{short}: TemporaryDirectory() not used as a context manager")
-        if len(withs) < 2:
-            ctx.violation("R18.2", short, f"{len(withs)} with blocks", fi.where(), f"{short}: intermediate RTF and converter output must live in temporary-directory context managers")
-        # ---- R18.3 filesystem touches
-        conv = [c for c in walk_no_nested(fi.node) if isinstance(c, ast.Call) and isinstance(c.func, ast.Attribute) and c.func.attr == "convert"]
-        enc = [c for c in walk_no_nested(fi.node) if isinstance(c, ast.Call) and dotted(c.func).endswith("rtf_encode")]
-        conv_node = _node_of(g, conv[0]) if conv else None
-        checks = [n for n in walk_no_nested(fi.node) if isinstance(n, ast.If) and "isinstance" in unparse(n.test) and "Path" in unparse(n.test)
-                  and n.body and isinstance(n.body[-1], ast.Raise)]
-        check_node = _node_of(g, checks[0].test) if checks else None
-        if not conv:
-            ctx.violation("R18.3", short, "no convert call", fi.where(), f"{short}: converter.convert is no longer called")
-        if not checks:
-            ctx.violation("R18.3", short, "no result type check", fi.where(), f"{short}: the converter result is no longer checked to be a Path before it is moved")
-        moves = 0
-        for c, kind, pexpr in _fs_touches(fi):
-            nd = _node_of(g, c)
-            to_target = pexpr is not None and _derives(fi.node, pexpr, target_names) and not _derives(fi.node, pexpr, tmp_vars)
-            to_tmp = pexpr is not None and _derives(fi.node, pexpr, tmp_vars)
-            if kind == "mkdir":
-                continue
-            inside_withs = sum(1 for a in _anc(c, fi.node) if isinstance(a, ast.With))
-            dominated = nd is not None and conv_node is not None and id(conv_node) in dom.get(id(nd), set()) and \
-                (check_node is None or id(check_node) in dom.get(id(nd), set()))
-            ctx.instance("R18.3", fi.where(c), f"{short}: {kind} -> `{unparse(pexpr)}` target={to_target} temp={to_tmp} after convert+check={dominated} depth(with)={inside_withs}")
-            if to_target:
-                if kind != "shutil.move":
-                    ctx.violation("R18.3", short, f"{kind} on target", fi.where(c), f"{short}: the target is touched by `{unparse(c)[:60]}`, not only by the final move")
-                else:
-                    moves += 1
-                    if not dominated:
-                        ctx.violation("R18.3", short, "move not dominated", fi.where(c), f"{short}: the move to the target is not preceded on every path by a successful conversion and the result type check")
-                    if inside_withs < 2:
-                        ctx.violation("R18.3", short, "move outside temp scope", fi.where(c), f"{short}: the move to the target happens outside the temporary-directory blocks (source may already be deleted)")
-                    src_e = c.args[0] if c.args else None
-                    if src_e is None or not _derives(fi.node, src_e, {"converted"}):
-                        ctx.violation("R18.3", short, "move source " + unparse(src_e), fi.where(c), f"{short}: what is moved to the target is not the converter's output")
-            elif not to_tmp and kind not in ("mkdir",):
-                ctx.violation("R18.3", short, f"{kind} outside temp dir: {unparse(pexpr)}", fi.where(c),
-                              f"{short}: `{unparse(c)[:70]}` writes to a path that derives neither from a temporary directory nor from the final move")
-        if moves < 1:
-            ctx.violation("R18.3", short, "no final move", fi.where(), f"{short}: the converter output never reaches the requested path")
-        # encode result written unmodified into the temp dir
-        for e in enc:
-            p = getattr(e, "_parent", None)
-            var = p.targets[0].id if isinstance(p, ast.Assign) and isinstance(p.targets[0], ast.Name) else None
-            wr = [c for c in walk_no_nested(fi.node) if isinstance(c, ast.Call) and isinstance(c.func, ast.Attribute) and c.func.attr == "write_text"]
-            ok = any(c.args and isinstance(c.args[0], ast.Name) and c.args[0].id == var for c in wr) and var and _single_assign(fi.node, var)
-            if not ok:
-                ctx.violation("R18.3", short, "intermediate RTF", fi.where(e), f"{short}: the intermediate RTF file is not exactly rtf_encode()'s result")
+        nm = short.split(".")[-1]
+        cases = [("/work/out/report." + fmt, True, "str", False, False), ("/work/new/sub/report." + fmt, False, "Path", True, fmt == "html"),
+                 ("/work/out/report." + fmt, False, "str", True, fmt == "html")]
+        for target, existing, path_kind, pass_conv, resources in cases:
+            where = (f"target {'exists' if existing else 'absent'}{' in a missing directory' if '/new/' in target else ''}, {path_kind}, "
+                     f"{'converter passed' if pass_conv else 'default converter'}{', converter writes a resource folder' if resources else ''}")
+            base = dict(target=target, existing=existing, resources=resources)
+            n_calls = 0
+            # ---- success
+            for o, r in _runs(pm, short, path_kind, pass_conv, **base):
+                got = r.target_now()
+                conv = r.converted
+                n_calls = max(n_calls, len(r.lib_calls))
+                ctx.instance("R18.3", fi.where(), f"{nm} ({where}): {o[0]} {_exc_name(o)}; target holds the converter output: {conv is not None and got == conv[1]}; "
+                             f"library calls {r.lib_calls}")
+                if o[0] == "raise":
+                    if _artefact(ctx, "R18.3", o, where):
+                        ctx.gap("R18.3", f"{nm} ({where}): interpretation ended with {o[1]!r}")
+                    else:
+                        ctx.violation("R18.3", short, f"raises {_exc_name(o)}", fi.where(), f"{nm} raises {o[1]!r} although encoding and conversion succeed ({where})")
+                    continue
+                # R18.4 format
+                fmts = [c["format"] for c in r.convert_calls]
+                ctx.instance("R18.4", fi.where(), f"{nm}: convert(format={fmts})")
+                if not r.convert_calls:
+                    ctx.violation("R18.3", short, "no convert call", fi.where(), f"{nm}: converter.convert is never called ({where})")
+                    continue
+                if fmts != [fmt]:
+                    ctx.violation("R18.4", short, f"format {fmts}", fi.where(), f"{nm} converts to {fmts}, expected ['{fmt}']")
+                for c in r.convert_calls:
+                    if c["input_content"] != ENCODED:
+                        ctx.violation("R18.3", short, "intermediate RTF", fi.where(),
+                                      f"{nm}: the file handed to the converter holds {str(c['input_content'])[:50]!r}, not exactly rtf_encode()'s result")
+                    if not c["input"].startswith("/tmp/") or not c["output_dir"].startswith("/tmp/"):
+                        ctx.violation("R18.3", short, "conversion outside a temporary directory", fi.where(),
+                                      f"{nm}: the converter works on {c['input']} -> {c['output_dir']}, not inside temporary directories")
+                if conv is None or got != conv[1]:
+                    ctx.violation("R18.3", short, "no final move", fi.where(),
+                                  f"{nm} ({where}): after a successful call the requested path holds {('nothing' if got is None else repr(got[:40]))}, not the converter's output")
+                allowed = []
+                if resources and conv is not None:
+                    res_dir = target.rsplit("/", 1)[0] + "/" + conv[0].rsplit("/", 1)[-1] + "_files"
+                    allowed.append(res_dir)
+                    ok_res = f"{res_dir}/image1.png" in r.fs.files
+                    ctx.instance("R18.3", fi.where(), f"{nm}: HTML resource folder moved next to the target ({res_dir}): {ok_res}")
+                    if not ok_res:
+                        ctx.violation("R18.3", short, "resource folder not moved", fi.where(), f"{nm}: the converter's `{conv[0].rsplit('/', 1)[-1]}_files` folder does not end up next to the requested path")
+                _after(ctx, r, short, nm, fi, where, "successful call", allowed)
+            # ---- failures: encode, converter modes, injected faults
+            _STATS["fault_points"][f"{nm} ({where})"] = n_calls
+            variants = [("rtf_encode raises", dict(enc_ok=False))]
+            variants += [(f"converter {m}", dict(conv_mode=m)) for m in ("raise-before", "raise-after", "returns-list", "returns-none", "returns-str")]
+            variants += [(f"fault at call #{k}", dict(fault_at=k)) for k in range(1, n_calls + 1)]
+            for vlabel, kw in variants:
+                for o, r in _runs(pm, short, path_kind, pass_conv, **base, **kw):
+                    got, want = r.target_now(), (OLD if existing else None)
+                    conv = r.converted
+                    ctx.instance("R18.3", fi.where(), f"{nm} ({where}; {vlabel}): {o[0]} {_exc_name(o)}; target afterwards "
+                                 f"{'unchanged' if got == want else ('absent' if got is None else repr(got[:30]))}")
+                    if o[0] == "raise" and _artefact(ctx, "R18.3", o, where):
+                        ctx.gap("R18.3", f"{nm} ({where}; {vlabel}): interpretation ended with {o[1]!r}")
+                        continue
+                    if o[0] != "raise":
+                        if conv is not None and got == conv[1] and vlabel == "converter returns-str":
+                            pass        # a writer that also accepts a str result delivered the output: all-or-nothing holds
+                        else:
+                            ctx.violation("R18.3", short, "failure swallowed: " + vlabel.split(" #")[0], fi.where(),
+                                          f"{nm} returns normally although {vlabel} ({where}); target holds {('nothing' if got is None else repr(got[:30]))}")
+                        _after(ctx, r, short, nm, fi, where, vlabel, [target.rsplit("/", 1)[0]])
+                        continue
+                    if got != want:
+                        ctx.violation("R18.3", short, "target changed although the call fails", fi.where(),
+                                      f"{nm} ({where}; {vlabel}): the call raises {_exc_name(o)} but the target was "
+                                      f"{'created' if want is None else 'replaced'} ({repr((got or '')[:40])}); a failed export must leave the target as it was")
+                    _after(ctx, r, short, nm, fi, where, vlabel, [])
     ctx.floor("R18.2", 6)
     ctx.floor("R18.3", 7)
 
 
-def _anc(n, stop):
-    p = getattr(n, "_parent", None)
-    while p is not None and p is not stop:
-        yield p
-        p = getattr(p, "_parent", None)
-
-
-def _skeleton(fi, fmt: str) -> list[str]:
-    out = []
-    for n in ast.walk(fi.node):
-        if isinstance(n, ast.Expr) and isinstance(n.value, ast.Constant):
-            continue
-        if isinstance(n, ast.Call):
-            out.append("call:" + dotted(n.func).replace(fmt, "FMT"))
-        elif isinstance(n, (ast.With, ast.If, ast.Raise, ast.Return, ast.For, ast.Try)):
-            out.append(type(n).__name__)
-        elif isinstance(n, ast.Constant) and isinstance(n.value, str) and n.value == fmt:
-            out.append("const:FMT")
-    return sorted(out)
-
-
-def r18_4(ctx: Ctx) -> None:
-    pm = ctx.pm
-    sk = {}
-    for short, fmt in zip(WRITERS, ("docx", "html", "pdf")):
-        fi = pm.func(short)
-        fmts = [k.value.value for c in walk_no_nested(fi.node) if isinstance(c, ast.Call) and isinstance(c.func, ast.Attribute) and c.func.attr == "convert"
-                for k in c.keywords if k.arg == "format" and isinstance(k.value, ast.Constant)]
-        ctx.instance("R18.4", fi.where(), f"{short}: convert(format={fmts})")
-        if fmts != [fmt]:
-            ctx.violation("R18.4", short, f"format {fmts}", fi.where(), f"{short} converts to {fmts}, expected ['{fmt}']")
-        sk[short] = _skeleton(fi, fmt)
-    a, b = sk[WRITERS[0]], sk[WRITERS[2]]
-    if a != b:
-        diff = sorted(set(a) ^ set(b))
-        ctx.violation("R18.4", "write_docx/write_pdf", "skeleton differs " + ",".join(diff)[:80], pm.func(WRITERS[2]).where(),
-                      f"write_docx and write_pdf are no longer the same function modulo the format ({diff[:6]}); a safeguard present in one is missing in the other")
-    h = sk[WRITERS[1]]
-    from collections import Counter
-    missing = Counter(a) - Counter(h)
-    if missing:
-        ctx.violation("R18.4", "write_html", "lacks " + ",".join(sorted(missing))[:80], pm.func(WRITERS[1]).where(),
-                      f"write_html lacks steps that write_docx has: {sorted(missing)[:6]}")
+def _after(ctx, r, short, nm, fi, where, vlabel, allowed) -> None:
+    """R18.2 / R18.3: what is left on the file system after a run"""
+    deb = r.debris()
+    ctx.instance("R18.2", fi.where(), f"{nm} ({where}; {vlabel}): temporaries created {r.fs.temp_created}, left behind {deb}")
+    if deb:
+        ctx.violation("R18.2", short, "temporary files survive" + ("" if vlabel == "successful call" else " a failure"), fi.where(),
+                      f"{nm} ({where}; {vlabel}): temporary files/directories are not removed: {deb[:3]}")
+    st = r.strays(allowed)
+    if st:
+        ctx.violation("R18.3", short, "files outside temporary directories", fi.where(),
+                      f"{nm} ({where}; {vlabel}): files other than the target are left outside temporary directories: {st[:3]}")
 
 
 def check(ctx: Ctx) -> None:
     ctx.explain(
-        "R18.1 CFG of write_rtf: the rtf_encode() call dominates every filesystem operation on the target path and the written "
-        "value is that call's single-assigned result. R18.2 in write_docx/html/pdf every temporary resource is a "
-        "`with tempfile.TemporaryDirectory()` item (or a repo context manager whose yield is protected by try/finally cleanup); "
-        "no mkdtemp/mkstemp/NamedTemporaryFile. R18.3 every filesystem write goes to a path derived from a temp-dir variable, "
-        "except shutil.move(<converter output>, <target>), which is dominated by converter.convert and the isinstance(Path) "
-        "raise-guard and lies inside both with blocks. R18.4 sibling agreement of the three converters.")
+        "The writers' syntax trees are interpreted over an in-memory file system with a model document and a model converter; "
+        "besides failing encode / convert (before output, after output, non-path results) an exception is injected at every call "
+        "boundary of repository code, one run each. R18.1 write_rtf: return => target == rtf_encode() string, raise => target as "
+        "before. R18.2 nothing created through tempfile survives any run. R18.3 converters: return => target == converter output "
+        "(+ HTML resource folder), the converter was given exactly the encoded string inside temporary directories, no other file "
+        "left; raise => target as before, nothing else left. R18.4 each writer requests its own format.")
+    ctx.explain("Method: " + METHOD + ". Fault injection is exhaustive over the call boundaries of repository code (repository functions, "
+                "classes and their models rtf_encode / LibreOfficeConverter() / converter.convert) that the fault-free run of the same scenario "
+                "reaches: one run per boundary, the exception is raised on entry instead of the call. Scenarios: 3 target situations (exists / "
+                "absent / absent in a missing directory) x str or Path argument x default or passed converter; converter behaviours: succeeds, "
+                "raises before output, raises after output, returns a list, None, a str (counts in coverage.interpretation).")
     ctx.assume("shutil.move is atomic enough for the property (same file system) and TemporaryDirectory removes its tree on exit")
+    ctx.assume("the document is a model whose rtf_encode returns a fixed string or raises; the converter is a model that writes `<stem>.<format>` "
+               "(and for HTML a `<name>_files` folder) into the output directory it is given; the file system is an in-memory model")
     ctx.undecided("atomicity of shutil.move across file systems; LibreOffice's own temporary files")
+    ctx.undecided("failures inside standard-library calls (shutil.move, Path.write_text, mkdir) are not injected; call boundaries that are only "
+                  "reached on error paths; concurrent writers")
+    for k in ("scenarios", "runs", "forks"):
+        _STATS[k] = 0
+    _STATS["fault_points"] = {}
     r18_1(ctx)
     r18_2_3(ctx)
-    r18_4(ctx)
+    cover(ctx, scenarios=_STATS["scenarios"], interpreted_runs=_STATS["runs"], forks_on_unknown_conditions=_STATS["forks"],
+          fault_points_per_scenario=dict(_STATS["fault_points"]), fault_injection="exhaustive over the repository call boundaries reached in the "
+          "fault-free run of each scenario (exception on entry)", converter_behaviours=["ok", "raise-before", "raise-after", "returns-list", "returns-none", "returns-str"],
+          fork_enumeration="all valuations of the unknown conditions consulted (at most 2^7 per scenario, else analysis gap)")
